@@ -1,5 +1,6 @@
 import Pxv.Driver.Util
 import Pxv.Model.ReqData
+import Pxv.Model.Float
 open Lean Pxv.Driver
 
 namespace Pxv.ReqData
@@ -114,6 +115,17 @@ def badOp : Json := Json.mkObj [("r", "bad-op")]
 
 def handle (j : Json) : Json :=
   match getStr? j "op" with
+  | some "pfloat" =>
+    -- a float field `x` of PathParams (`where` = "path": raw segment) or QueryParams (`where` = "query": raw value)
+    match getBytes? j "raw", getNat? j "bits", getStr? j "where" with
+    | some raw, some bits, some w =>
+      let f := if bits = 32 then f32 else f64
+      let r := if w = "path" then pathFloat f raw else queryFloat f raw
+      match r with
+      | .ok b => Json.mkObj [("r", "ok"), ("fbits", Json.str (toString b))]
+      | .error .parse => Json.mkObj [("r", "err"), ("kind", "parse")]
+      | .error .invalidUtf8 => Json.mkObj [("r", "err"), ("kind", "invalid-utf8")]
+    | _, _, _ => badOp
   | some "pdec" =>
     match getBytes? j "b" with
     | some bs => Json.mkObj [("r", "ok"), ("b", natListJson (percentDecode bs))]
